@@ -78,6 +78,10 @@ def escape_productions():
         st.characters(exclude_categories=("Cs",)).map(lambda c: "\\" + c),
         st.tuples(st.sampled_from(["\\x", "\\u", "\\U"]), st.lists(st.sampled_from(LOOKALIKE_DIGITS + ["1", "a"]), min_size=1, max_size=8)).map(
             lambda t: t[0] + "".join(t[1])),
+        # escapes that form, or nearly form, a UTF-16 surrogate pair (JSON writers produce them): high half, then a low half that is
+        # complete, cut at every length, or damaged at one position
+        st.tuples(st.sampled_from(["\\ud83d", "\\uD800", "\\uDBFF", "\\udbff", "\\uDC00"]), st.sampled_from(["\\ude00", "\\uDC00", "\\uDFFF", "\\udfff", "\\ud800"]),
+                  st.integers(0, 6), st.sampled_from(["", "", "g", " ", "-", "\u0663", "\\"])).map(lambda t: t[0] + t[1][:t[2]] + t[3]),
         st.sampled_from(["\\", "\\\n", "\\\r\n  ", "\\ ", "\\\t", "\\N", "\\_", "\\L", "\\P", "\\e", "\\/", "\\q", "\\8", "\\'"]))
     body = st.lists(st.one_of(forms, forms, st.sampled_from(["a", " ", "b c", "\n", "\n\n ", "'", "#"])), min_size=1, max_size=5).map("".join)
     wrap = st.sampled_from(['"%s"', '"%s', 'k: "%s"', '- "%s"\n- x', '["%s", a]', '{"%s": 1}', '? "%s"\n: v', '--- "%s"\n...\n', "'%s'", "%s"])
